@@ -78,6 +78,7 @@ def sources_for(cls, rng=None, w=None):
                     from xobjects.context import sort_classes
                     for c_ in sort_classes([cls]):
                         c_._gen_c_decl({})  # what ContextCpu.build_kernels(compile=True) does for the cffi cdefs
+                        c_._gen_c_decl()    # ... and what a user asking for the declarations does (default configuration)
         else:
             _gpu_sources(cls, kd if reuse else None, out)
     return out
